@@ -245,4 +245,14 @@ example :
     classify (lexOf i.render) 14 = { idem := true } := by
   decide +kernel
 
+open CqlVerif.Ast in
+/-- **insert_if_not_idempotent** — a conditional insert is never reported idempotent: for every
+`INSERT … VALUES (…) <tokens that end no statement> IF <anything>` (IF NOT EXISTS, with or without USING … before
+it), whatever the inserted values, scanned from the start of the input, with any fuel: the verdict is "not
+idempotent". -/
+theorem insert_if_not_idempotent (i : Insert) (pre post : List Tok) (hkw : i.valuesKw.equal "values" = true)
+    (hpre : ∀ x ∈ pre, isDMLTerminator x.kind = false) (htail : i.tail = pre ++ k tkIf :: post)
+    (L : Lexer) (fuel : Nat) (hA : At L 0 i.render) : (classify L fuel).idem = false :=
+  insert_if i pre post hkw hpre htail L fuel hA
+
 end CqlVerif.C06
